@@ -19,8 +19,8 @@ class _Tests(ast.NodeTransformer):
     """len(x) / len(x) > 0 / len(x) != 0 in boolean position -> x ;  not len(x) / len(x) == 0 -> not x"""
 
     def _simplify_bool(self, e):
-        if isinstance(e, ast.Call) and isinstance(e.func, ast.Name) and e.func.id == 'len' and len(e.args) == 1 and not e.keywords:
-            return e.args[0]
+        if isinstance(e, ast.Call) and isinstance(e.func, ast.Name) and e.func.id in ('len', 'bool') and len(e.args) == 1 and not e.keywords:
+            return self._simplify_bool(e.args[0]) if e.func.id == 'bool' else e.args[0]
         if isinstance(e, ast.Compare) and len(e.ops) == 1 and isinstance(e.comparators[0], ast.Constant) and e.comparators[0].value == 0 \
                 and isinstance(e.left, ast.Call) and isinstance(e.left.func, ast.Name) and e.left.func.id == 'len' and len(e.left.args) == 1:
             if isinstance(e.ops[0], (ast.Gt, ast.NotEq)):
@@ -158,8 +158,13 @@ def inline_helpers(project, func, max_stmts=14, depth=2, select=None):
         if not (isinstance(tgt, list) and len(tgt) == 1):
             return None
         g = tgt[0]
-        if g is func or g.cls is not None or g.module is not func.module:
+        if g is func or g.cls is not None:
             return None
+        if g.module is not func.module:
+            # helpers of other modules: only pure `return <expr>` helpers (their free names are spelled as in their module)
+            b = body_of(g)
+            if not (len(b) == 1 and isinstance(b[0], ast.Return) and b[0].value is not None) or g.parent is not None:
+                return None
         if g.vararg or g.kwarg or len(g.node.body) > max_stmts:
             return None
         if any(isinstance(n, ast.Call) and project.resolve_call(g, n) == [g] for n in g.body_nodes()):
